@@ -6,6 +6,7 @@ import (
 	"fmt"
 	"os"
 	"sort"
+	"strings"
 
 	parser "github.com/acekingke/yaccgo/Parser"
 	utils "github.com/acekingke/yaccgo/Utils"
@@ -39,6 +40,10 @@ func cmdViews() {
 			fmt.Fprintf(w, "DNAME %d %s\n", s.ID, hex.EncodeToString([]byte(utils.EscapeDotGraph(utils.RemoveTempName(s.Name)))))
 		}
 		fmt.Fprintf(w, "WANTDOT\n")
+		for _, s := range g.Symbols {
+			// the spelling the debug listing uses (the listing model's `names` function)
+			fmt.Fprintf(w, "RNAME %d %s\n", s.ID, hex.EncodeToString([]byte(s.Name)))
+		}
 		for i, ru := range g.ProductoinRules {
 			var rhs []int
 			for _, s := range ru.RighPart {
@@ -61,10 +66,12 @@ func cmdViews() {
 			x := append([]int{}, la.LA...)
 			sort.Ints(x)
 			fmt.Fprintf(w, "LA %d %d %s\n", la.State, la.Rule, ints(x))
+			fmt.Fprintf(w, "LLA %d %d %s\n", la.State, la.Rule, ints(la.LA)) // the implementation's own order
 		}
 		for qi, row := range v.GTable {
 			fmt.Fprintf(w, "ROW %d %s\n", qi, ints(row))
 		}
+		fmt.Fprintf(w, "CODES %d %d\n", v.GenErrorCode(), v.GenAcceptCode())
 		// the DOT graph object
 		var nodes, edges []string
 		_, pv := capture(func() {
@@ -105,5 +112,20 @@ func cmdViews() {
 			fmt.Fprintln(w, l)
 		}
 		fmt.Fprintf(w, "LISTING %s\n", q(out))
+		// the two sections of the listing the Lean listing model renders, line by line
+		if i := strings.Index(out, "=========Show State Closure=========\n"); i >= 0 {
+			sec := out[i+len("=========Show State Closure=========\n"):]
+			if j := strings.Index(sec, "===========SHOW TRANS================\n"); j >= 0 {
+				for _, l := range strings.Split(strings.TrimSuffix(sec[:j], "\n"), "\n") {
+					fmt.Fprintf(w, "HLISTS %s\n", hex.EncodeToString([]byte(l)))
+				}
+			}
+		}
+		if i := strings.Index(out, "==========Show LookAhead SET===============\n"); i >= 0 {
+			sec := strings.Split(out[i+len("==========Show LookAhead SET===============\n"):], "\n")
+			for k := 0; k < len(las) && k < len(sec); k++ {
+				fmt.Fprintf(w, "HLISTLA %s\n", hex.EncodeToString([]byte(sec[k])))
+			}
+		}
 	})
 }
